@@ -190,4 +190,21 @@ CHECKS = {
                    "edge-multi channel never triggers; both runs agree (empty), which is observed, not judged.",
         assumptions=["edge-multi settings respect the validity rule (zero-threshold needs npre >= 4 and nsamp-npre >= 4; nmonotone <= nsamp-npre)"],
     ),
+    "C09": dict(
+        pkg=".", hdir="root", test="TestVerif_C09", wal=True,
+        quick=dict(shards=16, checks=3000, timeout=600),
+        thorough=dict(shards=16, checks=60000, timeout=3000),
+        technique="stateful property-based testing (rapid) against a set-of-pairs reference model + per-cycle multiset oracle for secondaries",
+        rule="rapid-generated histories on a 2/4/6-channel LanceroSource value: 1-10 edits (add/delete with 1-4 receivers incl. out-of-range, "
+             "negative, repeated and self indices; StopTriggerCoupling; SetCoupling none/FB->err/err->FB) interleaved with data blocks "
+             "(partitions as in C01) carrying boundary-biased pulses; channels with triggers off, edge, level or auto, configured by "
+             "ConfigureTriggers, restored from a saved configuration, or only partly configured. non-trivial = >= 1 cycle delivering a "
+             "secondary after a delete / stop-coupling / repeated add; distinct = FNV-64 of the case",
+        level_text="After every edit the connection state reported to clients must equal, as a set, the set-theoretic result (adds/deletes "
+                   "idempotent, self-connections ignored, out-of-range indices never taking effect). After every processing cycle the "
+                   "multiset of record frames on each channel must equal its own primaries plus the primaries of its connected sources, "
+                   "every record being the receiver's own exact excerpt; a channel without incoming connection emits only its primaries.",
+        level_note="Primaries are read at the processor/broker interface and cross-checked against the records published on the channel.",
+        assumptions=["no ConfigurePulseLengths or edge-multi inside these histories (covered by C01/C08)"],
+    ),
 }
